@@ -21,7 +21,7 @@ def impl_fem(kind, v, t, lump, dt="f64", it="i64", aniso=None, aniso_smooth=2, p
     with core.quiet():
         if pres and pres != "plain":
             pv, pt = gen.present(v, t, pres)
-            m = cls(pv.astype(DT[dt]), pt if pres == "t-int32" else pt.astype(IT[it], copy=False))
+            m = cls(pv.astype(DT[dt]), pt if pres in gen.NARROW else pt.astype(IT[it], copy=False))
         else:
             m = cls(np.asarray(v, dtype=DT[dt]), np.asarray(t, dtype=IT[it]))
         if aniso is None:
@@ -133,6 +133,9 @@ def aniso_meshes(seed, n):
         v = v @ gen.random_rotation(rng).T
         aniso = float(rng.uniform(0.5, 6.0)) if k % 2 else (float(rng.uniform(0.5, 6.0)), float(rng.uniform(0.0, 6.0)))
         out.append(dict(v=np.asarray(v, float), t=np.asarray(t, np.int64), aniso=aniso, smooth=int(rng.integers(0, 4)), name=["ellipsoid", "torus", "cylinder"][kind]))
+    for h in (1e-6, 10.0 ** rng.uniform(-7.3, -5)):          # flat (sliver) triangles: one vertex almost on the opposite edge
+        v, t = gen.sliver(rng, h)
+        out.append(dict(v=v, t=t, aniso=0.0 if h == 1e-6 else (0.0, 3.0), smooth=int(rng.integers(0, 3)), name="sliver"))
     return out
 
 
@@ -154,6 +157,16 @@ def run_stream(drv, stats, seed, n_tri, n_tet, size, failures, name="fem corresp
                                              case_dict("tri", c["v"], c["t"], lump=lump, dt=dt, name=c["name"], pres=c.get("pres"))))
                 if len(failures) > 5:
                     return
+    rs = gen.rng_for(seed, "sliver")
+    for h in (1e-5, 1e-7, 10.0 ** rs.uniform(-7.5, -4)):          # flat triangles in generic position (float64 only)
+        v, t = gen.sliver(rs, h)
+        for rot in range(3):
+            tt = np.roll(t, rot, axis=1)
+            for lump in (False, True):
+                err = compare_fem(drv, "tri", v, tt, lump, "f64", "i64")
+                stats.case(core.mesh_key(v, tt, lump, "sliver"), cls=["tri:sliver", "lump:%s" % lump])
+                if err:
+                    failures.append(core.Failure("correspondence", name, "tri sliver h=%.3g lump=%s: %s" % (h, lump, err), case_dict("tri", v, tt, lump=lump, dt="f64", name="sliver")))
     for c in gen.tet_stream(seed, n_tet, size):
         for lump in (False, True):
             dt = dtypes[k % len(dtypes)]
